@@ -32,7 +32,7 @@ const (
 type Case struct {
 	Op         string
 	Args       []string
-	Go         string   // canonical Go answer
+	Go         string // canonical Go answer
 	Mode       Mode
 	Direct     []string // direct property failures found on the Go side (empty = none)
 	NonTrivial bool
@@ -59,20 +59,20 @@ type Failure struct {
 }
 
 type Result struct {
-	Property      string         `json:"property"`
-	Tier          string         `json:"tier"`
-	Seed          int64          `json:"seed"`
-	Evaluations   int            `json:"evaluations"`
-	DistinctNT    int            `json:"distinct_nontrivial"`
-	Rule          string         `json:"rule"`
-	Samples       []string       `json:"samples"`
-	Distribution  map[string]int `json:"distribution"`
-	Classes       map[string]int `json:"answer_classes"`
-	Failures      []Failure      `json:"failures"`
-	Drift         []Failure      `json:"drift"`
-	CorpusRun     int            `json:"corpus_cases"`
-	Exhaustive    bool           `json:"exhaustive,omitempty"`
-	Notes         []string       `json:"notes,omitempty"`
+	Property      string               `json:"property"`
+	Tier          string               `json:"tier"`
+	Seed          int64                `json:"seed"`
+	Evaluations   int                  `json:"evaluations"`
+	DistinctNT    int                  `json:"distinct_nontrivial"`
+	Rule          string               `json:"rule"`
+	Samples       []string             `json:"samples"`
+	Distribution  map[string]int       `json:"distribution"`
+	Classes       map[string]int       `json:"answer_classes"`
+	Failures      []Failure            `json:"failures"`
+	Drift         []Failure            `json:"drift"`
+	CorpusRun     int                  `json:"corpus_cases"`
+	Exhaustive    bool                 `json:"exhaustive,omitempty"`
+	Notes         []string             `json:"notes,omitempty"`
 	KnownHits     map[string]*KnownHit `json:"known_hits,omitempty"`
 	truncFailures int
 }
@@ -97,7 +97,7 @@ type Runner struct {
 
 func NewRunner(prop, tier string, seed int64, oraclePath string) *Runner {
 	r := &Runner{
-		res: &Result{Property: prop, Tier: tier, Seed: seed, Distribution: map[string]int{}, Classes: map[string]int{}},
+		res:      &Result{Property: prop, Tier: tier, Seed: seed, Distribution: map[string]int{}, Classes: map[string]int{}},
 		seen:     map[[16]byte]struct{}{},
 		rng:      rand.New(rand.NewSource(seed*1000003 + int64(len(prop))*7919 + int64(prop[1])*31 + int64(prop[2]))),
 		maxFail:  20,
